@@ -120,8 +120,9 @@ LEVEL_TEXT = {
             "re-issued, a stale id stays stale for ever under any history (any re-entrant slot bodies), uses through stale ids are rejected or have no "
             "effect, operator== is identity; the 2^32 wrap-around is proved to be real (C12_wrap_refuted, known finding). The model is tied to the code by "
             "differential execution of generated churn histories (stale handles, copies, foreign signals) under ASan/UBSan.", '6/C12'),
-    'C16': ("Signal layer machine-checked; property layer by correspondence (fault-injecting property histories: writes to bound properties, destroyed inputs, "
-            "throwing functions, then valid operations) with known finding KF-C02-aborted-walk. Machine-checked: after EVERY top-level call of the model - also calls ending in a library exception raised inside nested emissions or "
+    'C16': ("Signal layer machine-checked; property layer: machine-checked that the link invariant holds and no property signal is left emitting after EVERY call whatever "
+            "it answered (ReadOnlyProperty, PropertyDestroyedError, already-emitting, throwing user function), the values after a failure by correspondence (fault-injecting "
+            "property histories: writes to bound properties, destroyed inputs, throwing functions, then valid operations) with known finding KF-C02-aborted-walk. Machine-checked: after EVERY top-level call of the model - also calls ending in a library exception raised inside nested emissions or "
             "evaluation passes - no Impl is left emitting, no evaluator evaluating, no disconnect pending, all tables well formed (invariant + frame "
             "contract proved for arbitrary re-entrant slot bodies). Tie: differential execution of fault-injecting histories (stale/foreign/inactive "
             "handles, dead evaluators, nested emission) followed by valid operations.", '6/C16'),
